@@ -41,6 +41,19 @@ func newTraversal(variable string) traversal {
 	}
 }
 
+// fork returns a copy of the traversal that owns its slices. Every branch of the path (alternatives, the
+// continuations of a sequence) appends to the accumulated code: sharing the backing arrays between branches
+// makes one branch overwrite the clauses of another.
+func (t traversal) fork() traversal {
+	return traversal{
+		variable:      t.variable,
+		counter:       t.counter,
+		rego:          append([]string{}, t.rego...),
+		pathVariables: append([]string{}, t.pathVariables...),
+		paths:         append([]string{}, t.paths...),
+	}
+}
+
 func internalResultToTraversal(p traversal, r regoPathResultInternal) traversal {
 	return traversal{
 		variable:      p.variable,
@@ -210,6 +223,7 @@ func traverseProperty(property path.Property, t traversal, fetchNodes bool, iriE
 // Traverses the leaf components of the path expression, always a property.
 // TODO: We don't take into transitive paths yet.
 func traverseRegularProperty(property path.Property, t traversal, fetchNodes bool, iriExpander *misc.IriExpander) []regoPathResultInternal {
+	t = t.fork()
 
 	propertyIri, err := property.Expanded(iriExpander)
 
@@ -258,6 +272,7 @@ func traverseRegularProperty(property path.Property, t traversal, fetchNodes boo
 }
 
 func traverseCustomProperty(property path.Property, t traversal, fetchNodes bool, iriExpander *misc.IriExpander) []regoPathResultInternal {
+	t = t.fork()
 	customPropertyName, err := property.CustomName(iriExpander)
 	if err != nil {
 		panic(err)
